@@ -250,6 +250,7 @@ protected:
     // also use set to avoid (evaluating) duplicates
     std::vector<PropInfo*> subjections{};
     PropInfo* _imitation{nullptr};
+    bool created{false};  ///< the last call of property() added a property
 
     void dropClauses();
     void typeProperty(UTAP::expression_t) override;
